@@ -39,6 +39,7 @@ func c08(c *Ctx) {
 	c08R12(c)
 	c08R13(c)
 	c08R14(c)
+	noSendUnderConsensusLock(c, "R15")
 }
 
 func c08R4(c *Ctx) {
